@@ -2129,7 +2129,7 @@ class ReferenceManager:
         self._valid_to_refs.setdefault(id(new_value), []).extend(newrefs)
 
     @staticmethod
-    def _impl_change_ref(impl, name, value, *refmode):
+    def _impl_change_ref(impl, name, value, refmode=None):
 
         if isinstance(impl, ModelImpl):
             impl.model.change_ref(name, value)
